@@ -2,7 +2,7 @@
 //! in lock step, audits after every op (DESIGN §3.1, §4).
 
 use crate::arena::{self, CtxKind};
-use crate::exec::{self, shared, violate, Phase, View};
+use crate::exec::{self, shared, violate, violate_soft, Phase, View};
 use crate::model::*;
 use crate::script::*;
 use crate::world::*;
@@ -94,8 +94,7 @@ fn checked_clone(h: &Rc<Node>, t: Oid) -> Rc<Node> {
     if w().cfg.cost_checks {
         count(ctr::COST_CHECKS, 1);
         if before != after {
-            violate(
-                View::Cost,
+            violate_soft(View::Cost,
                 &format!(
                     "cloning a handle to object {} ran {} trace(s), {} allocation(s), {} free(s)",
                     t,
@@ -733,12 +732,10 @@ pub fn audit(mid: bool) {
                 "object {}: strong_count={} weak_count={} but {} strong and {} Weak handle instances exist",
                 o, sc, wc, ms, mw
             );
-            drop(m);
-            violate(View::Count, &msg);
+            violate_soft(View::Count, &msg);
         }
         if ap != m.objs[o as usize].value_addr {
-            drop(m);
-            violate(View::Count, &format!("object {}: as_ptr changed during its life", o));
+            violate_soft(View::Count, &format!("object {}: as_ptr changed during its life", o));
         }
         if after_collect && m.has_records(o) {
             label(lab::SURVIVOR_USED);
@@ -749,8 +746,7 @@ pub fn audit(mid: bool) {
             count(ctr::SNAPSHOTS, 1);
             let snap = Rc::__verif_links(h);
             if let Some(msg) = compare_table(&m, o, &snap) {
-                drop(m);
-                violate(View::Table, &msg);
+                violate_soft(View::Table, &msg);
             }
             if snap.len() >= 2 {
                 // order fingerprint, to measure that layouts perturb iteration order (C09)
@@ -776,13 +772,13 @@ pub fn audit(mid: bool) {
             }
             if let Some(fh) = first_handle[t as usize] {
                 if !Rc::ptr_eq(h, unsafe { &(*fh).h }) {
-                    violate(View::Count, &format!("two handles to object {} disagree on ptr_eq", t));
+                    violate_soft(View::Count, &format!("two handles to object {} disagree on ptr_eq", t));
                 }
             }
             let other = (0..n).find(|&x| x as Oid != t && first_handle[x].is_some());
             if let Some(x) = other {
                 if Rc::ptr_eq(h, unsafe { &(*first_handle[x].unwrap()).h }) {
-                    violate(View::Count, &format!("handles to distinct objects {} and {} are ptr_eq", t, x));
+                    violate_soft(View::Count, &format!("handles to distinct objects {} and {} are ptr_eq", t, x));
                 }
             }
         }
@@ -821,7 +817,7 @@ fn audit_weak(m: &Model, lw: &LoggedWeak) {
     let t = lw.target;
     if t == NONE {
         if sc != 0 || wc != 0 {
-            violate(View::Weak, "Weak::new() reports non-zero counts");
+            violate_soft(View::Weak, "Weak::new() reports non-zero counts");
         }
         return;
     }
@@ -829,22 +825,20 @@ fn audit_weak(m: &Model, lw: &LoggedWeak) {
     if st != St::Alive {
         label(lab::WEAK_DEAD_QUERY);
         if sc != 0 || wc != 0 {
-            violate(
-                View::Weak,
+            violate_soft(View::Weak,
                 &format!("Weak to destroyed object {} reports strong_count={} weak_count={} (must be 0/0)", t, sc, wc),
             );
         }
     } else if !m.in_open_obligation(t) {
         let (ms, mw) = (m.strong(t), m.weak(t));
         if sc != ms || wc != mw {
-            violate(
-                View::Weak,
+            violate_soft(View::Weak,
                 &format!("Weak to live object {} reports strong_count={} weak_count={}, expected {}/{}", t, sc, wc, ms, mw),
             );
         }
         let ap = lw.w.as_ptr() as usize;
         if ap != m.objs[t as usize].value_addr {
-            violate(View::Weak, &format!("Weak::as_ptr of object {} changed", t));
+            violate_soft(View::Weak, &format!("Weak::as_ptr of object {} changed", t));
         }
     }
 }
@@ -933,16 +927,14 @@ pub fn audit_memory(final_check: bool) {
                 ob.st,
                 m.weak(o)
             );
-            drop(m);
-            violate(View::Leak, &msg);
+            violate_soft(View::Leak, &msg);
         }
         if !b.freed && should_be_free && !ob.panicked {
             let msg = format!(
                 "object {} was destroyed (path {}) and no Weak handle remains, but its allocation was not released",
                 o, ob.death_path
             );
-            drop(m);
-            violate(View::Leak, &msg);
+            violate_soft(View::Leak, &msg);
         }
     }
     // (b) bookkeeping storage of destroyed objects
@@ -970,8 +962,7 @@ pub fn audit_memory(final_check: bool) {
                 exec::describe_block(bi),
                 parts
             );
-            drop(m);
-            violate(View::Leak, &msg);
+            violate_soft(View::Leak, &msg);
         }
     }
     if final_check {
@@ -982,13 +973,12 @@ pub fn audit_memory(final_check: bool) {
             if live != 0 {
                 let which: Vec<String> =
                     arena::blocks().iter().enumerate().filter(|(_, b)| !b.freed).take(4).map(|(i, _)| exec::describe_block(i)).collect();
-                drop(m);
-                violate(
-                    View::Leak,
+                violate_soft(View::Leak,
                     &format!("every object destroyed and every Weak dropped, but {} block(s) remain allocated: {}", live, which.join("; ")),
                 );
+            } else {
+                label(lab::CLEANUP_ZERO);
             }
-            label(lab::CLEANUP_ZERO);
         }
     }
 }
